@@ -51,7 +51,13 @@ def load_fixed(ctx):
 def run(ctx):
     generate(ctx)
     info = ctx.coq_props()
-    model_ok = all((vlib.COQ / "C03" / f"{m}.vo").exists() for m in ("Builder", "Encode", "Frag", "CfgSem"))
+    # ForModel.v (for loops; definitions only) is not a dependency of Props.v: build it explicitly
+    fm = ctx.coq_make(["C03/ForModel.vo"])
+    if not fm.ok:
+        info["ok"] = False
+        info["failed"] = fm.failed or "C03/ForModel.vo"
+        info["log"] += fm.log
+    model_ok = all((vlib.COQ / "C03" / f"{m}.vo").exists() for m in ("Builder", "Encode", "Frag", "CfgSem", "ForModel"))
     if not model_ok:
         ctx.report("model-build", "proof-broken", "coq/C03 model files do not compile",
                    {"coq_error": vlib.CoqResult(False, info["log"]).error_excerpt()}, found_input=False)
